@@ -219,6 +219,8 @@ def gvar_cases():
     callx = lambda res, arg: {"op": "call", "callee": {"k": "ext"}, "res": [R(res)], "args": [I(3), arg]}
     shapes = {
         "set_call_read": [ins("mov", GV, R(A)), call17(RES, R(B)), ins("mov", R(T), GV)],
+        "set_read_call": [ins("mov", GV, R(A)), ins("mov", R(T), GV), call17(RES, R(B))],                 # the read right after the store, then the call
+        "setimm_read_call": [ins("mov", GV, I(256)), ins("or", R(U), R(B), I(1)), ins("mov", R(T), GV), call17(RES, R(U))],
         "set_ext_call_read": [ins("mov", GV, R(A)), callx(U, R(B)), call17(RES, R(U)), ins("mov", R(T), GV)],
         "set_call_call_read": [ins("mov", GV, R(A)), call17(RES, R(B)), call17(U, R(RES)), ins("mov", R(T), GV), ins("add", R(RES), R(RES), R(U))],
         "set_call_cmp": [ins("mov", GV, R(A)), call17(RES, R(B)), ins("ugt", GV, GV, R(B)), ins("mov", R(T), GV)],
